@@ -29,11 +29,11 @@ func (g *gen) c(l string) *crlObj {
 }
 
 func (g *gen) set(u, b, d string) *hop { return &hop{K: "set", U: u, Base: g.c(b), Delta: g.c(d)} }
-func setNil(u string) *hop            { return &hop{K: "set", U: u, NilB: true} }
-func get(u string) *hop               { return &hop{K: "get", U: u} }
-func getAt(u string, ms int64) *hop   { return &hop{K: "get", U: u, WaitMs: ms} }
-func del(u string) *hop               { return &hop{K: "del", U: u} }
-func mkdir(u string) *hop             { return &hop{K: "mkdir", U: u} }
+func setNil(u string) *hop             { return &hop{K: "set", U: u, NilB: true} }
+func get(u string) *hop                { return &hop{K: "get", U: u} }
+func getAt(u string, ms int64) *hop    { return &hop{K: "get", U: u, WaitMs: ms} }
+func del(u string) *hop                { return &hop{K: "del", U: u} }
+func mkdir(u string) *hop              { return &hop{K: "mkdir", U: u} }
 func put(u, what string, c []byte) *hop {
 	return &hop{K: "put", U: u, What: what, Content: c}
 }
@@ -92,13 +92,13 @@ func (g *gen) corruptions(base, delta *crlObj, r *Rng) []corruption {
 		addc(fmt.Sprintf("%s@%d^%d", what, pos, bit), b)
 	}
 	flipAt("flip:open-brace", 0, 0)
-	flipAt("flip:key", 3, 0)       // baseCRL -> bbseCRL
-	flipAt("flip:key-case", 2, 5)  // baseCRL -> BaseCRL (encoding/json folds case)
+	flipAt("flip:key", 3, 0)      // baseCRL -> bbseCRL
+	flipAt("flip:key-case", 2, 5) // baseCRL -> BaseCRL (encoding/json folds case)
 	flipAt("flip:colon", iBaseVal-2, 0)
 	flipAt("flip:quote", iBaseVal-1, 1)
 	flipAt("flip:close-brace", len(c)-1, 1)
-	flipAt("flip:b64-first", iBaseVal, 2)       // DER tag
-	flipAt("flip:b64-high", iBaseVal+10, 7)     // not a base64 character
+	flipAt("flip:b64-first", iBaseVal, 2)   // DER tag
+	flipAt("flip:b64-high", iBaseVal+10, 7) // not a base64 character
 	for k := 0; k < 6; k++ {
 		flipAt("flip:b64-random", iBaseVal+r.Intn(iBaseEnd-iBaseVal), uint(r.Intn(7)))
 	}
